@@ -378,13 +378,15 @@ theorem processSection_placed (H : BaseSection o fmt s p bytes m patch0 patch2 i
 
 /-- **a section without failure and with a backup due, real run** — `-b`, or `--backup-if-mismatch` (the default outside POSIX
     mode) after a placement that was not perfect: the target's old bytes and mode are found under the backup name (one `rename`),
-    the target holds the rendered output with its old mode, the backup name is recorded, the applier's messages go to the log -/
+    the target holds the rendered output with its old mode, the backup name is recorded, the applier's messages go to the log
+    (`hnd`: the backup name is not that of a directory — a file is not renamed onto a directory) -/
 theorem processSection_placed_backup (H : BaseSection o fmt s p bytes m patch0 patch2 info par1 par2 r)
     (hfail : r.failed = 0)
     (hb : o.saveBackup = true ∨ (r.perfect = false ∧ r.skipped = false ∧ o.backupIfMismatch = .yes))
     (hreal : o.dryRun = false) (hdir : s.fs.dirExists (parentOf p) = true)
     (hnot : s.backedUp.contains (backupName o p) = false)
-    (hdirs : DirsThere s.fs (backupName o p)) (hbdir : s.fs.dirExists (parentOf (backupName o p)) = true) :
+    (hdirs : DirsThere s.fs (backupName o p)) (hbdir : s.fs.dirExists (parentOf (backupName o p)) = true)
+    (hnd : NotDir s.fs (backupName o p)) :
     ∃ s', (processSection o fmt).run s = (.ok true, s') ∧
       s'.fs = ((s.fs.erase p).set (backupName o p) (.file bytes m)).set p (.file (render o.newlineOutput r.out) m) ∧
       s'.trace = s.trace ++ [.tmpCreate, .tmpUnlink] ++ [.tmpCreate, .tmpUnlink] ++
@@ -394,13 +396,13 @@ theorem processSection_placed_backup (H : BaseSection o fmt s p bytes m patch0 p
       SectionEnd s s' p par2 := by
   rcases hb with hb | ⟨hperf, hskip, hbim⟩
   · base_run [hfail, hb, hreal,
-      (fun s' pt c perm => @run_writePatchedResult_backup s' p bytes m o pt c m perm), hdir, hnot, hdirs, hbdir, H.pathNe]
+      (fun s' pt c perm => @run_writePatchedResult_backup s' p bytes m o pt c m perm), hdir, hnot, hdirs, hbdir, hnd, H.pathNe]
     refine ⟨_, rfl, rfl, ?_, rfl, rfl, rfl, rfl, ⟨rfl, rfl, rfl, ?_, H.cwd.symm, H.noFault.symm, rfl, rfl, rfl, rfl⟩⟩
     · simp [List.append_assoc]
     · generalize s.tty = t
       cases t <;> simp
   · base_run [hfail, hperf, hskip, hbim, hreal,
-      (fun s' pt c perm => @run_writePatchedResult_backup s' p bytes m o pt c m perm), hdir, hnot, hdirs, hbdir, H.pathNe]
+      (fun s' pt c perm => @run_writePatchedResult_backup s' p bytes m o pt c m perm), hdir, hnot, hdirs, hbdir, hnd, H.pathNe]
     refine ⟨_, rfl, rfl, ?_, rfl, rfl, rfl, rfl, ⟨rfl, rfl, rfl, ?_, H.cwd.symm, H.noFault.symm, rfl, rfl, rfl, rfl⟩⟩
     · simp [List.append_assoc]
     · generalize s.tty = t
